@@ -210,6 +210,48 @@ theorem lp2_step_linear (m : Mode) (s0 s1 x k0 k1 : Int)
   simp only [arithI_ok_of_in h6, arithI_ok_of_in h7, bind_ok']
   rw [get_eq b0 b1]
 
+/-- **second order, DC gain exactly 1 at rest**: under a constant input `x`, a state is left unchanged by the update
+    exactly when the velocity state is zero and `get() = x` (given the no-overflow side conditions and `k0 ≠ 0`);
+    i.e. the only resting point of the filter has output exactly `x`. -/
+theorem lp2_fixed_point_iff (m : Mode) (s0 s1 x k0 k1 : Int)
+    (hs0 : inI 64 s0 = true) (hx : inI 32 x = true) (hk0 : k0 ≠ 0)
+    (h1 : inI 64 (satI 32 (x - s0 / 4294967296) * k0) = true) (h2 : inI 64 (s1 / 4294967296 * k1) = true)
+    (h3 : inI 64 (satI 32 (x - s0 / 4294967296) * k0 + s1 / 4294967296 * k1) = true)
+    (h4 : inI 64 (s1 + (satI 32 (x - s0 / 4294967296) * k0 + s1 / 4294967296 * k1)) = true)
+    (h5 : inI 64 (s0 + (s1 + (satI 32 (x - s0 / 4294967296) * k0 + s1 / 4294967296 * k1))) = true)
+    (h6 : inI 64 (s0 + 2 * (s1 + (satI 32 (x - s0 / 4294967296) * k0 + s1 / 4294967296 * k1))) = true)
+    (h7 : inI 64 (s1 + 2 * (satI 32 (x - s0 / 4294967296) * k0 + s1 / 4294967296 * k1)) = true) :
+    (∃ y, lp2Update m s0 s1 x k0 k1 = .ok (s0, s1, y)) ↔ (s1 = 0 ∧ s0 / 4294967296 = x) := by
+  have ⟨x0, x1⟩ := inI_iff.mp hx
+  have ⟨a0, a1⟩ := inI_iff.mp hs0
+  simp only [show (32 : Nat) - 1 = 31 from rfl, show (64 : Nat) - 1 = 63 from rfl, Int.reducePow, Int.reduceNeg] at x0 x1 a0 a1
+  rw [lp2_step_linear m s0 s1 x k0 k1 hs0 _ rfl h1 h2 h3 h4 h5 h6 h7]
+  generalize hd : satI 32 (x - s0 / 4294967296) * k0 + s1 / 4294967296 * k1 = d
+  constructor
+  · rintro ⟨y, hy⟩
+    have hy' := Except.ok.inj hy
+    have e1 : s0 + 2 * (s1 + d) = s0 := (Prod.mk.inj hy').1
+    have e2 : s1 + 2 * d = s1 := (Prod.mk.inj (Prod.mk.inj hy').2).1
+    have hd0 : d = 0 := by omega
+    have hs1 : s1 = 0 := by omega
+    refine ⟨hs1, ?_⟩
+    subst hs1
+    rw [hd0] at hd
+    simp at hd
+    have hsat : satI 32 (x - s0 / 4294967296) = 0 := by
+      rcases Int.mul_eq_zero.mp hd with h | h
+      · exact h
+      · exact absurd h hk0
+    unfold satI minI maxI at hsat
+    simp only [show (32 : Nat) - 1 = 31 from rfl, Int.reducePow, Int.reduceNeg, Int.reduceSub] at hsat
+    (repeat' split at hsat) <;> omega
+  · rintro ⟨hs1, hg⟩
+    subst hs1
+    have hd0 : d = 0 := by
+      rw [← hd, hg]; simp [satI, minI, maxI]
+    rw [hd0]
+    exact ⟨(s0 + (0 + 0)) / 4294967296, by simp⟩
+
 -- non-vacuity: a concrete first-order step (k = 2^30, from rest, input 1000)
 example : lp1Update .checked 0 1000 (2 ^ 30) = .ok (2147483648000, 250) := by decide
 
